@@ -104,4 +104,42 @@ theorem kv_merge_any_update (kvm : KV) (upd : List (List Nat × Option (List Nat
 
 example : lookup (merge [([1], [10]), ([2], [20])] [([2], none), ([3], some [30]), ([1], some [11])]) [1] = some [11] := by decide
 
+
+/-- **any sequence of in-place updates of a data file**: start from a strictly framed file; after
+    every rewrite in the sequence (footers of any sizes below 2^32 — growing, equal, shrinking by any
+    number of bytes) the file is again strictly framed at the SAME offset with the latest footer, and
+    every byte before the footer is what it was at the start. -/
+theorem any_update_sequence (nfs : List (List Nat)) (hall : ∀ nf ∈ nfs, nf.length < 2 ^ 32) :
+    ∀ (f nf0 : List Nat) (loc : Nat), loc ≤ f.length → nf0.length < 2 ^ 32 → framedStrict f loc nf0 →
+      let g := nfs.foldl (rewrite true false) f
+      framedStrict g loc (nfs.getLast?.getD nf0) ∧ g.take loc = f.take loc ∧ loc ≤ g.length := by
+  induction nfs with
+  | nil => intro f nf0 loc hl _ hf; exact ⟨hf, rfl, hl⟩
+  | cons nf rest ih =>
+    intro f nf0 loc hl hn0 hf
+    have hloc : footerLoc false f = loc := loc_stable f nf0 loc hl hn0 hf
+    have hl' : footerLoc false f ≤ f.length := by rw [hloc]; exact hl
+    have h1 := still_valid false f nf hl'
+    have h2 := data_prefix_same true false f nf hl'
+    rw [hloc] at h1 h2
+    have hlen : loc ≤ (rewrite true false f nf).length := by
+      have := congrArg List.length h2
+      simp only [List.length_take] at this
+      omega
+    have hnf : nf.length < 2 ^ 32 := hall nf List.mem_cons_self
+    obtain ⟨a, b, c⟩ := ih (fun x hx => hall x (List.mem_cons_of_mem _ hx)) (rewrite true false f nf) nf loc hlen hnf h1
+    simp only [List.foldl_cons]
+    refine ⟨?_, by rw [b, h2], c⟩
+    cases rest with
+    | nil => simpa using a
+    | cons r rs =>
+      have e : ∀ d : List Nat, ((r :: rs).getLast?).getD d = (r :: rs).getLast (by simp) := by
+        intro d; rw [List.getLast?_eq_some_getLast (by simp)]; rfl
+      rw [List.getLast?_cons_cons, e nf0]
+      rw [e nf] at a
+      exact a
+
+example : framedStrict ([1, 2, 3] ++ [9, 9] ++ leBytes 4 2 ++ magic) 3 [9, 9] := by
+  unfold framedStrict; decide
+
 end PqV.Props.C16
